@@ -99,6 +99,7 @@ class Env:
         self.priv = priv if priv is not None else {}
         self.tid = tid
         self.rec = None          # optional access recorder(kind, loc)
+        self.alias = {}          # formal array name -> actual (in a callee)
         self.in_parallel = False
         self.ws_count = 0
         self.barrier_count = 0
@@ -129,6 +130,7 @@ class Env:
         self.shared[name] = val
 
     def aread(self, name, idx):
+        name = self.alias.get(name, name)
         arr = self.shared.get(name)
         if not isinstance(arr, Arr):
             raise Unsupported("not an array " + name)
@@ -138,6 +140,7 @@ class Env:
         return arr.data[off]
 
     def awrite(self, name, idx, val):
+        name = self.alias.get(name, name)
         arr = self.shared.get(name)
         if not isinstance(arr, Arr):
             raise Unsupported("not an array " + name)
@@ -298,6 +301,7 @@ class Ctx:
         self.iter_hook = None   # called (loop node, env, value) per iteration
         self.loop_hook = None   # called (loop node, "enter"|"exit")
         self.order_hook = None  # (loop node, count) -> iteration order
+        self.routines = None    # {name: Routine node} enables Call statements
         self.ext = None         # {node class name: generator fn(node, env,
         #                          ctx)} for statements owned by another
         #                          simulator (OpenACC device store, ...)
@@ -419,7 +423,54 @@ def exec_stmt(node, env, ctx):
     if ctx.ext is not None and tname in ctx.ext:
         yield from ctx.ext[tname](node, env, ctx)
         return
+    if tname == "Call" and ctx.routines is not None:
+        yield from exec_call(node, env, ctx)
+        return
     raise Unsupported("statement node " + tname)
+
+
+def exec_call(node, env, ctx):
+    """Call of a routine of the same file: arrays by reference (whole-array
+    actuals only), scalar variables by reference (copy-in/copy-out, exact
+    for the callees generated here, which do not alias), other actuals by
+    value; callee locals are undefined on entry."""
+    import copy
+    callee = ctx.routines.get(node.routine.name.lower())
+    if callee is None:
+        raise Unsupported("call to unknown routine " + node.routine.name)
+    formals = callee.symbol_table.argument_list
+    actuals = list(node.arguments)
+    if len(formals) != len(actuals):
+        raise Unsupported("argument count")
+    sub = copy.copy(env)
+    sub.priv = {}
+    sub.alias = {}
+    back = []
+    for formal, actual in zip(formals, actuals):
+        fname = formal.name.lower()
+        aname = actual.symbol.name.lower() if type(actual).__name__ == \
+            "Reference" else None
+        if formal.is_array:
+            if aname is None:
+                raise Unsupported("array actual that is not a whole array")
+            sub.alias[fname] = env.alias.get(aname, aname)
+        else:
+            sub.priv[fname] = ev(actual, env)
+            if aname is not None:
+                back.append((fname, aname))
+    for sym in callee.symbol_table.datasymbols:
+        name = sym.name.lower()
+        if name not in sub.priv and name not in sub.alias:
+            if sym.is_array:
+                raise Unsupported("local array in callee")
+            sub.priv[name] = POISON
+    try:
+        yield from exec_block(callee.children, sub, ctx)
+    except _Return:
+        pass
+    for fname, aname in back:
+        if sub.priv[fname] is not POISON or True:
+            env.write(aname, sub.priv[fname])
 
 
 def run_serial(stmts, store, ctx=None, rec=None):
